@@ -530,6 +530,8 @@ def judge(ctx: Any, case: dict[str, Any], tdesc: dict[str, Any], node: dcgen.Nod
     if status in ("hang", "dead") or not server_alive:
         fail_once(ctx, case, f"C02:server-died:{path}:{transport}", f"the server stopped answering after echoing a {path} value (status {status})")
         return
+    if none_bad and have_received:
+        fail_once(ctx, case, f"C02:none-reached-implementation:{path}", f"the implementation was invoked with None for a parameter that is not Optional ({transport})")
     if status == "ok" and none_bad:
         fail_once(ctx, case, f"C02:none-accepted:{path}", f"None was accepted for a parameter / result that is not Optional ({transport})")
     elif status == "ok":
